@@ -26,20 +26,13 @@ func VerifDeadlineStopMonitor(i *InMemCollector) {
 	i.done = make(chan struct{})
 }
 
-// VerifDeadlinePark parks every worker with the code's own pause channel; the returned function
-// releases them.
-func VerifDeadlinePark(i *InMemCollector) (release func()) {
-	chans := make([]chan struct{}, len(i.workers))
-	for k, w := range i.workers {
-		ch := make(chan struct{})
-		w.pause <- ch
-		chans[k] = ch
-	}
-	return func() {
-		for _, ch := range chans {
-			close(ch)
-		}
-	}
+// VerifDeadlineParkWorker parks worker w with the code's own pause channel: the send completes only
+// when the worker's collect() loop is in its select, i.e. after it has finished whatever event it was
+// handling.  The returned function releases it (the loop then starts its next iteration).
+func VerifDeadlineParkWorker(i *InMemCollector, w int) (release func()) {
+	ch := make(chan struct{})
+	i.workers[w].pause <- ch
+	return func() { close(ch) }
 }
 
 func VerifDeadlineNumWorkers(i *InMemCollector) int { return len(i.workers) }
